@@ -51,6 +51,10 @@ mod imp {
         TightGas,
         Deposit { mint: u8, value: u8 },
         SystemDeposit,
+        /// deposit that creates a contract (the program is the init code), with mint
+        DepositCreate,
+        /// deposit whose gas limit is below the intrinsic gas
+        DepositLowGas,
     }
     #[derive(Clone, Copy, Debug, PartialEq, Eq, Hash, Serialize, Deserialize)]
     pub enum L1 {
@@ -128,6 +132,15 @@ mod imp {
                 t.tx.value = U256::from(value);
             }
             Kind::SystemDeposit => t.tx.gas_price = U256::ZERO,
+            Kind::DepositCreate => {
+                t.tx.gas_price = U256::ZERO;
+                t.tx.to = None;
+                t.tx.data = c.code.clone();
+            }
+            Kind::DepositLowGas => {
+                t.tx.gas_price = U256::ZERO;
+                t.tx.gas_limit = 20_000;
+            }
         }
         t
     }
@@ -136,6 +149,11 @@ mod imp {
         let spec = t.spec();
         let mut env = t.env();
         match c.kind {
+            Kind::DepositCreate | Kind::DepositLowGas => {
+                env.tx.optimism.source_hash = Some(B256::with_last_byte(3));
+                env.tx.optimism.mint = Some(5);
+                env.tx.optimism.is_system_transaction = Some(false);
+            }
             Kind::Deposit { mint, .. } => {
                 env.tx.optimism.source_hash = Some(B256::with_last_byte(1));
                 env.tx.optimism.mint = if mint == 0 { None } else { Some(mint as u128) };
@@ -190,7 +208,7 @@ mod imp {
         let (t, o) = exec33(c);
         let spec = t.spec();
         let mut v = vec![];
-        let is_deposit = matches!(c.kind, Kind::Deposit { .. } | Kind::SystemDeposit);
+        let is_deposit = matches!(c.kind, Kind::Deposit { .. } | Kind::SystemDeposit | Kind::DepositCreate | Kind::DepositLowGas);
         let sig = format!("{:?}/{}", o.class, o.reason.split('(').next().unwrap_or(""));
         if o.class == Class::Fatal {
             v.push((if o.reason.starts_with("panic") { "panic".to_string() } else { "fatal".to_string() }, o.reason.clone()));
@@ -201,6 +219,10 @@ mod imp {
             let expected = c.kind == Kind::SystemDeposit && spec.is_enabled_in(SpecId::REGOLITH);
             if !expected && !is_deposit {
                 v.push(("unexpected-rejection".into(), o.reason.clone()));
+            }
+            if !expected && is_deposit {
+                // a deposit is never dropped: when it fails, mint and nonce bump must still be persisted
+                v.push((format!("deposit-rejected:{:?}", c.kind).split(' ').next().unwrap().to_string(), format!("the deposit was rejected ({}) instead of being recorded as failed with its mint and nonce bump", o.reason)));
             }
             return (v, sig);
         }
@@ -222,6 +244,7 @@ mod imp {
         if is_deposit {
             let mint = match c.kind {
                 Kind::Deposit { mint, .. } => BigUint::from(mint),
+                Kind::DepositCreate | Kind::DepositLowGas => BigUint::from(5u8),
                 _ => BigUint::zero(),
             };
             let expect = &s_pre + &mint - &value_moved;
@@ -299,6 +322,8 @@ mod imp {
             Kind::Deposit { mint: 5, value: 3 },
             Kind::Deposit { mint: 0, value: 1 },
             Kind::SystemDeposit,
+            Kind::DepositCreate,
+            Kind::DepositLowGas,
         ];
         let envelopes: Vec<Bytes> = vec![
             Bytes::new(),
@@ -354,12 +379,12 @@ mod imp {
             .collect();
         let acc = merge_all(accs);
         let meta = Meta {
-            rule: format!("every macro program of depth <= {depth} over the fee-safe alphabet x 10 transaction kinds (legacy, with value, EIP-1559 uncapped / capped, tight gas, 4 deposits with and without mint and value, system deposit) x L1 block parameters {{zero, typical, huge}} x 4 enveloped-transaction byte strings (empty, 4 bytes, 120 mixed bytes, deposit-typed) on BEDROCK..ISTHMUS through the Optimism handler; distinct = distinct (spec, kind, L1 parameters, envelope, outcome)"),
+            rule: format!("every macro program of depth <= {depth} over the fee-safe alphabet x 12 transaction kinds (legacy, with value, EIP-1559 uncapped / capped, tight gas, 4 deposits with and without mint and value, system deposit, a deposit that creates a contract from the program, a deposit below the intrinsic gas) x L1 block parameters {{zero, typical, huge}} x 4 enveloped-transaction byte strings (empty, 4 bytes, 120 mixed bytes, deposit-typed) on BEDROCK..ISTHMUS through the Optimism handler; distinct = distinct (spec, kind, L1 parameters, envelope, outcome)"),
             assumptions: vec![
                 "programs never pay the sender, the beneficiary or a vault, so balance deltas of those accounts are fee flows only".into(),
                 "the L1 cost is compared with an independent definition for Bedrock / Regolith / Ecotone; from Fjord (FastLZ size estimate) only conservation and the other components are decided".into(),
             ],
-            bounds: json!({"depth": depth, "specs": 8, "kinds": 10}),
+            bounds: json!({"depth": depth, "specs": 8, "kinds": 12}),
             min_distinct: 100,
             exhaustive: true,
             explanation: "sender debit = value moved + credits of beneficiary and the three vaults; each component equals its definition; deposits mint exactly and persist mint and nonce on failure".into(),
